@@ -32,8 +32,8 @@ import (
 	"github.com/libp2p/go-libp2p/core/network"
 	"github.com/libp2p/go-libp2p/core/peer"
 	"github.com/libp2p/go-libp2p/core/peerstore"
-	ma "github.com/multiformats/go-multiaddr"
 	"github.com/multiformats/go-base32"
+	ma "github.com/multiformats/go-multiaddr"
 	"google.golang.org/protobuf/proto"
 
 	"github.com/libp2p/go-libp2p-kad-dht/internal"
@@ -578,8 +578,8 @@ func (s *vC09Srv) checkCloser(typ pb.Message_MessageType, key []byte, from peer.
 
 // vC09ProvVerdict predicts the effect of an ADD_PROVIDER frame from the property text.
 type vC09ProvVerdict struct {
-	valid   bool                // some entry: id == sender, >= 1 decodable address, key length 1..80
-	allowed map[string]bool     // addresses (binary) the peerstore may gain for the sender
+	valid   bool            // some entry: id == sender, >= 1 decodable address, key length 1..80
+	allowed map[string]bool // addresses (binary) the peerstore may gain for the sender
 }
 
 func (s *vC09Srv) predictAddProvider(from peer.ID, m *pb.Message) vC09ProvVerdict {
@@ -903,7 +903,7 @@ func (s *vC09Srv) finish(st *vInStream, what string) {
 
 func TestVerif_C09_frames(t *testing.T) {
 	vh.Run(t, vh.Spec{Prop: "C09", Unit: "frames", Quick: 160, Thorough: 8000, CostMs: 80,
-		Rule: "per case one server-mode DHT (K in {1,2,3,5,8,20,64}, 0..3K+8 table peers, peerstore with none/public/private/relay/64 long dns addresses per peer, 3 provider keys, valid + planted expired/mis-filed/corrupt value entries, address filter in half the cases) and 12-30 inbound streams from table peers / strangers / peerstore-only peers / the node's own id, 1-4 generated frames each: type in {0..5, unknown enums} x key {empty,1,32,80,81,4 KiB, table peer, requester, self, stored key, planted key, provider key} x record {nil, ok, wrong key, invalid, empty, huge, foreign, garbage} x provider/closer lists {sender, other, self, empty id, garbage id} x addresses {none, public, private, loopback, relay, mixed, undecodable, 40 long dns, 10^4 public, 10^4 undecodable}; a control PING on a fresh stream after every frame; non-trivial = at least one frame answered, one reset and one ADD_PROVIDER judged; distinct by (K, table size, outcome sequence)",
+		Rule:    "per case one server-mode DHT (K in {1,2,3,5,8,20,64}, 0..3K+8 table peers, peerstore with none/public/private/relay/64 long dns addresses per peer, 3 provider keys, valid + planted expired/mis-filed/corrupt value entries, address filter in half the cases) and 12-30 inbound streams from table peers / strangers / peerstore-only peers / the node's own id, 1-4 generated frames each: type in {0..5, unknown enums} x key {empty,1,32,80,81,4 KiB, table peer, requester, self, stored key, planted key, provider key} x record {nil, ok, wrong key, invalid, empty, huge, foreign, garbage} x provider/closer lists {sender, other, self, empty id, garbage id} x addresses {none, public, private, loopback, relay, mixed, undecodable, 40 long dns, 10^4 public, 10^4 undecodable}; a control PING on a fresh stream after every frame; non-trivial = at least one frame answered, one reset and one ADD_PROVIDER judged; distinct by (K, table size, outcome sequence)",
 		Clauses: []string{"one-reply-or-reset", "control-ping-answered", "closer-at-most-k", "closer-never-requester-or-self", "closer-ascending", "closer-are-nearest-of-table", "find-node-target-first", "find-node-only-peers-with-addresses", "peer-record-at-most-8k", "reply-within-message-limit", "echo-without-peer-records", "get-value-record-has-requested-key", "get-value-record-not-expired", "add-provider-stored-iff-valid", "add-provider-never-answered", "peerstore-gains-only-filtered-sender-addresses", "read-requests-write-nothing", "valid-request-answered", "handler-ends-after-reset", "handler-ends-after-eof", "providers-are-stored-providers"}},
 		func(c *vh.Case) {
 			c.Bubble(t, 6*time.Hour, "handler-hang", func(t *testing.T) {
@@ -939,4 +939,3 @@ func TestVerif_C09_frames(t *testing.T) {
 			})
 		})
 }
-
